@@ -197,6 +197,19 @@ package internal
 //@ func (*Palette).GoroutineHeader
 //@   requires p != nil && g != nil
 //@   modifies nothing
+//@   gvar sl string
+//@   gvar cb string
+//@   gvar col string
+//@   gvar rc string
+//@   update after-call SleepString#1: sl := ret0
+//@   update after-call createdByString#1: cb := ret0
+//@   update after-call routineColor#1: col := ret0
+//@   update after-call fmt.Sprintf#2: rc := ret0
+//@   assert after-call SleepString#1: [sleepTextOfThisGoroutine C16] arg0 == &g.Signature
+//@   assert after-call createdByString#1: [creatorTextOfThisGoroutine C16] arg0 == pf && arg1 == &g.Signature
+//@   assert after-call routineColor#1: [colourByFirstAndMultiplicity C16] arg0 == p && (arg1 <==> g.First) && (arg2 <==> multipleGoroutines)
+//@   assert after-call fmt.Sprintf#2: [raceNoteShowsKindAndAddress C16] g.RaceAddr != 0 && len(arg1) == 4 && strof(arg1[0]) == p.EOLReset && strof(arg1[1]) == p.Race && strof(arg1[2]) == (g.RaceWrite ? "write" : "read") && intof(arg1[3]) == g.RaceAddr
+//@   assert after-call fmt.Sprintf#1: [headerShowsIdStateSleepLockCreatorAndRace C16] len(arg1) == 5 && strof(arg1[0]) == col && intof(arg1[1]) == g.ID && strof(arg1[2]) == g.State && strof(arg1[4]) == p.EOLReset && strof(arg1[3]) == (sl != "" ? " [" + sl + "]" : "") + (g.Locked ? " [locked]" : "") + (cb != "" ? p.CreatedBy + " [Created by " + cb + "]" : "") + (g.RaceAddr != 0 ? rc : "")
 //@ func (*Palette).callLine
 //@   requires p != nil && line != nil
 //@   modifies nothing
